@@ -140,14 +140,16 @@ impl<'r, R: Read> Block<'r, R> {
 
     /// Try to read a data block, also performing schema resolution for the objects contained in
     /// the block. The objects are stored in an internal buffer to the `Reader`.
-    fn read_block_next(&mut self) -> AvroResult<()> {
+    ///
+    /// Returns `Ok(false)` if the input ended cleanly before another block.
+    fn read_block_next(&mut self) -> AvroResult<bool> {
         assert!(self.is_empty(), "Expected self to be empty!");
         // The stream only ends cleanly on a block boundary, i.e. before the first byte of the
         // block count. Running out of input after that is an error (truncated file).
         let mut first = [0u8; 1];
         loop {
             match self.reader.read(&mut first) {
-                Ok(0) => return Ok(()),
+                Ok(0) => return Ok(false),
                 Ok(_) => break,
                 Err(e) if e.kind() == ErrorKind::Interrupted => {}
                 Err(e) => return Err(Details::ReadVariableIntegerBytes(e).into()),
@@ -174,7 +176,8 @@ impl<'r, R: Read> Block<'r, R> {
                 // and replace `buf` with the new one, instead of reusing the same buffer.
                 // We can address this by using some "limited read" type to decode directly
                 // into the buffer. But this is fine, for now.
-                self.codec.decompress(&mut self.buf)
+                self.codec.decompress(&mut self.buf)?;
+                Ok(true)
             }
             Err(e) => Err(Error::new(e)),
         }
@@ -189,9 +192,9 @@ impl<'r, R: Read> Block<'r, R> {
     }
 
     pub(super) fn read_next(&mut self, read_schema: Option<&Schema>) -> AvroResult<Option<Value>> {
-        if self.is_empty() {
-            self.read_block_next()?;
-            if self.is_empty() {
+        // A block may hold no objects at all: go on to the next block, the file ends only with the input
+        while self.is_empty() {
+            if !self.read_block_next()? {
                 return Ok(None);
             }
         }
@@ -223,9 +226,9 @@ impl<'r, R: Read> Block<'r, R> {
         &mut self,
         reader_schema: Option<&Schema>,
     ) -> AvroResult<Option<T>> {
-        if self.is_empty() {
-            self.read_block_next()?;
-            if self.is_empty() {
+        // A block may hold no objects at all: go on to the next block, the file ends only with the input
+        while self.is_empty() {
+            if !self.read_block_next()? {
                 return Ok(None);
             }
         }
